@@ -121,16 +121,20 @@ EnvScriptOn(base, r) ==
                 IF r = <<>> THEN base
                 ELSE LET o == r[Len(r)]
                          p == EnvScriptOn(base, SubSeq(r, 1, Len(r) - 1))
-                     IN IF o.op \in {"ctor", "set_input", "stream_set"} THEN o.ls
+                     IN IF o.op \in {"ctor", "ctor_stream", "set_input", "stream_set"} THEN o.ls
                         ELSE IF o.op \in {"append_input", "stream_append"} THEN p \o o.ls
                         ELSE IF o.op = "clear_input" THEN <<>> ELSE p
+\* "ctor_stream": an I/O built on a StreamInputStream around a raw seekable stream (io.BytesIO - stdin redirected from a
+\* file); "rewrap": a NEW StreamInputStream / Input / IO around the SAME raw stream (what every create_io / ConsoleIO() does
+\* with sys.stdin): the lines already read stay read - reading goes on where it stopped - and the new I/O is interactive
 EnvScript(r) == EnvScriptOn(<<>>, r)
-Replaces(r) == \E k \in 1..Len(r) : r[k].op \in {"ctor", "set_input", "stream_set", "clear_input"}
+Replaces(r) == \E k \in 1..Len(r) : r[k].op \in {"ctor", "ctor_stream", "set_input", "stream_set", "clear_input"}
 RECURSIVE EnvInter(_)
 EnvInter(r) == IF r = <<>> THEN TRUE
+               ELSE IF r[Len(r)].op = "rewrap" THEN TRUE
                ELSE IF r[Len(r)].op \in {"io_inter", "input_inter"} THEN r[Len(r)].b
                ELSE EnvInter(SubSeq(r, 1, Len(r) - 1))
-SetsInter(r) == \E k \in 1..Len(r) : r[k].op \in {"io_inter", "input_inter"}
+SetsInter(r) == \E k \in 1..Len(r) : r[k].op \in {"io_inter", "input_inter", "rewrap"}
 
 \* ================================================================== A-layer
 Good(v) == [ok |-> TRUE, val |-> v, cls |-> ""]
